@@ -80,8 +80,9 @@ add("C04", "TestC04", "exploration",
     "Trusted: reference model, reference value encodings, legacy 0.5.10 writer (validated against the archive).", RAPID, "DESIGN.md §4 C04")
 
 add("C05", "TestC05", "exploration",
-    dict(cases=6000, shards=8), dict(cases=160000, shards=16, timeout_s=3000),
-    "3/4 round-trip cases: a generated trie (all modes/encoders/value layouts) marshalled, rebuilt, reloaded via Unmarshal or proto.Unmarshal; 1/4 history cases: a drawn sequence of 1..6 operations {Unmarshal, proto.Unmarshal, Reset, Unmarshal(truncated stream), Unmarshal(incompatible version)} on ONE instance over a pool of 2..4 streams (empty/small/large, different modes, current and legacy layouts); non-trivial = round trip of a trie with >= 1 inner node, or a history in which a smaller stream or a failed load follows a larger one",
+    dict(cases=6000, shards=8, extra=[dict(test="TestC05Large", shards=9)]),
+    dict(cases=160000, shards=16, timeout_s=3000, extra=[dict(test="TestC05Large", shards=14)]),
+    "deterministic large shapes (short-table sizes 8-10, > 65535 nodes/steps/prefixes) round-tripped + 3/4 round-trip cases: a generated trie (all modes/encoders/value layouts) marshalled, rebuilt, reloaded via Unmarshal or proto.Unmarshal; 1/4 history cases: a drawn sequence of 1..6 operations {Unmarshal, proto.Unmarshal, Reset, Unmarshal(truncated stream), Unmarshal(incompatible version)} on ONE instance over a pool of 2..4 streams (empty/small/large, different modes, current and legacy layouts); non-trivial = round trip of a trie with >= 1 inner node, or a history in which a smaller stream or a failed load follows a larger one",
     "Round trip: len(Marshal) == proto.Size, building twice gives identical bytes, proto.Marshal == Marshal, re-marshalling the loaded trie reproduces the bytes, and every API (Get/GetID/RangeGet/Search on Q(keys), scans, Stat, String) answers identically on the fresh and the loaded trie (including false positives). Histories (stateful, model = a fresh twin loaded with only the last successfully applied stream): after every step the instance is observationally equal to the twin; empty on every API after Reset; empty for lookups and scans after a failed load.",
     "Trusted: the twin (a fresh instance loaded once) as the model of 'no residue'. Stat() after a FAILED direct Unmarshal is not asserted (no listed property constrains it).",
     RAPID + " + model-based operation sequences (stateful)", "DESIGN.md §4 C05")
